@@ -73,6 +73,16 @@ SetPilot(p) ==
                     evE |-> evE', chg |-> chg'])
     /\ UNCHANGED <<kind, occ>>
 
+\* A pilot that is not a number at all (NaN), or infinite: it lies in no allowable set of a station with finite
+\* limits, so it is refused like any other invalid pilot and nothing changes.
+Specials == {"nan", "inf", "-inf"}
+SetSpecial(x) ==
+    /\ nops < MaxOps /\ nops' = nops + 1 /\ x \in Specials
+    /\ last' = "invalid" /\ UNCHANGED <<kind, occ, pilot, evE, chg>>
+    /\ hist' = Log([op |-> "set_pilot", special |-> x, p |-> 0, res |-> "invalid", occ |-> occ, pilot |-> pilot,
+                    evE |-> evE, chg |-> chg])
+DoSetSpecial == \E x \in Specials : SetSpecial(x)
+
 Finish ==
     /\ nops = MaxOps /\ last # "emitted"
     /\ IF Rec THEN PrintT(<<"BHV", ToJson([kind |-> kind, evs |-> EVs, v |-> V, t |-> T,
@@ -91,6 +101,7 @@ Next ==
     \/ DoPlugin
     \/ Unplug
     \/ DoSetPilot
+    \/ DoSetSpecial
     \/ Finish \/ Terminated
 
 Spec == Init /\ [][Next]_vars
